@@ -81,6 +81,58 @@ def all_calls(rng, w, objs):
     return out
 
 
+def numeric_actions(w):
+    def flat(t):
+        if isinstance(t, str):
+            yield t
+        else:
+            for x in t:
+                yield from flat(x)
+    return [a["name"] for a in w.actions if any(x in ("assign", "increase", "decrease") for x in flat(a["eff"]))]
+
+
+def plant_enabler(rng, w, info):
+    """an action that moves the fluent the read-write action's precondition looks at, so that the same grounded call
+    can be refused first and executed later (and the other way round)"""
+    F = info["F"]
+    params = [p for p in info["params"] if p[0] in F[1:]]
+    name = "en%d" % len(w.actions)
+    eff = rng.choice([["increase", F, "2"], ["assign", F, "2"], ["decrease", F, "3"], ["assign", F, "0"]])
+    w.actions.append({"name": name, "params": params, "group": False, "pre": ["and"], "eff": ["and", eff]})
+    return name
+
+
+def repeat_cases(rng, tier):
+    """plans in which the SAME grounded call with numeric effects is executed twice or more (in a row and with other
+    steps between), is refused and executed later, executed and refused later; the action's conditional / universal
+    effects read what its unconditional group writes (props/c03.plant_read_write)"""
+    from .c03 import plant_read_write
+    cases = []
+    for _ in range({"quick": 12, "thorough": 80}[tier]):
+        w = G.gen_world(rng, max_actions=2)
+        info = plant_read_write(rng, w)
+        en = plant_enabler(rng, w, info)
+        objs = G.gen_objects(rng, w)
+        calls = all_calls(rng, w, objs)
+        rw_calls = [c for c in calls if c[0] == info["name"]]
+        if not rw_calls:
+            continue
+        st = G.gen_state(rng, w, objs)
+        base = {"domain_text": G.render(w.domain_tree("dom"), rng, True), "problem_text": G.problem_text(w, objs, st, domain="dom"),
+                "objects": [list(o) for o in objs], "init": st, "features": sorted(w.features), "numeric_actions": numeric_actions(w)}
+        for _k in range(2):
+            c = rng.choice(rw_calls)
+            e = (en, [a for (p, _), a in zip(info["params"], c[1]) if p in info["F"][1:]])
+            o = rng.choice(calls)
+            plan = rng.choice([[c, c, c], [c, c, c, c], [c, e, c, c], [c, c, e, c], [c, e, e, c, c], [c, o, c, e, c, c], [e, c, c, o, c]])
+            noise = rng.random() < 0.4
+            lines = [render_line(rng, n, a, noise) for n, a in plan]
+            for allow in (False, True):
+                cases.append(dict(base, kind="repeat", lines=lines, calls=plan, allow=allow, strict=True, expect_raise=False,
+                                  noise=noise))
+    return cases
+
+
 def gen_cases(rng, tier):
     n_worlds = {"quick": 30, "thorough": 170}[tier]
     cases = []
@@ -96,7 +148,7 @@ def gen_cases(rng, tier):
         dtext = G.render(w.domain_tree("dom"), rng, True)
         ptext = G.problem_text(w, objs, st, domain="dom")
         base = {"domain_text": dtext, "problem_text": ptext, "objects": [list(o) for o in objs], "init": st,
-                "features": sorted(w.features)}
+                "features": sorted(w.features), "numeric_actions": numeric_actions(w)}
         for k in range(3):
             length = rng.choice([0, 1, 2, 3, 4, 5, 6, 8]) if k else rng.choice([3, 4, 5, 6])
             plan = [rng.choice(calls) for _ in range(length)]
@@ -270,7 +322,7 @@ def run(args):
         data = json.load(open(args.replay))
         cases = [data["input"]["case"]]
     else:
-        cases = corpus_cases() + fixture_cases(args.tier) + gen_cases(rng, args.tier)
+        cases = corpus_cases() + fixture_cases(args.tier) + gen_cases(rng, args.tier) + repeat_cases(rng, args.tier)
     cfg = run_impl([{"op": "core.numeric_config"}], nproc=1)[0]
     hashseeds = [0] if args.tier == "quick" else [0, 1]
     all_cases, all_verdicts = [], ""
@@ -279,7 +331,11 @@ def run(args):
             "steps": 0, "steps_applicable": 0, "steps_refused_unchanged": 0, "steps_forced": 0,
             "position_applicable": {}, "position_inapplicable": {}, "parse_plan_raised": 0, "raise_classes": {},
             "direct_refused": 0, "direct_returned": 0, "direct_other_error": 0, "domain_parse_raised": 0,
-            "spec_judged": 0, "spec_skipped": 0, "features": {}}
+            "spec_judged": 0, "spec_skipped": 0, "features": {},
+            "repeated_calls": {"plans_with_a_call_executed_2+_times": 0, "plans_with_a_numeric_call_executed_2+_times": 0,
+                               "plans_with_a_numeric_call_executed_twice_in_a_row": 0,
+                               "plans_with_a_call_refused_then_executed": 0, "plans_with_a_call_executed_then_refused": 0,
+                               "max_executions_of_one_numeric_call": 0}}
     for hs in hashseeds:
         results = run_impl([job_of(c) for c in cases], hashseed=hs)
         lits, kept = [], []
@@ -322,6 +378,25 @@ def run(args):
                     dist["parse_plan_raised"] += 1
                     k = res["trace_raised"]["raised"]
                     dist["raise_classes"][k] = dist["raise_classes"].get(k, 0) + 1
+                rc = dist["repeated_calls"]
+                hist = {}
+                for s in res.get("steps") or []:
+                    hist.setdefault(s["op"], []).append(bool(s.get("applicable")) or bool(c["allow"]))
+                numeric = set(c.get("numeric_actions") or [])
+
+                def is_num(op):
+                    return op.strip("()").split()[0] in numeric if op.strip("()").split() else False
+                rc["plans_with_a_call_executed_2+_times"] += 1 if any(sum(h) >= 2 for h in hist.values()) else 0
+                rc["plans_with_a_numeric_call_executed_2+_times"] += 1 if any(sum(h) >= 2 and is_num(op) for op, h in hist.items()) else 0
+                ops_seq = [(s["op"], bool(s.get("applicable")) or bool(c["allow"])) for s in res.get("steps") or []]
+                rc["plans_with_a_numeric_call_executed_twice_in_a_row"] += 1 if any(
+                    a == b and a[1] and is_num(a[0]) for a, b in zip(ops_seq, ops_seq[1:])) else 0
+                rc["plans_with_a_call_refused_then_executed"] += 1 if any(
+                    any((not x) and any(h[i + 1:]) for i, x in enumerate(h)) for h in hist.values()) else 0
+                rc["plans_with_a_call_executed_then_refused"] += 1 if any(
+                    any(x and not all(h[i + 1:]) for i, x in enumerate(h)) for h in hist.values()) else 0
+                rc["max_executions_of_one_numeric_call"] = max([rc["max_executions_of_one_numeric_call"]] + [
+                    sum(h) for op, h in hist.items() if is_num(op)])
                 for i, s in enumerate(res.get("steps") or []):
                     dist["steps"] += 1
                     key = "position_applicable" if s.get("applicable") else "position_inapplicable"
